@@ -20,6 +20,10 @@ is assumed, the detector records are part of the state), every container:
                                 SAME container, whatever their fields and detector states were
   C06_rerun_deterministic       hence run_fdtd from either gives identical results, in particular from the arrays
                                 returned by a previous run (`C06_rerun_from_output`, body preserving the frame)
+  C06_unrecorded_detectors      custom_fdtd_forward(record_detectors=False): detector states are all zero after
+                                reset_container=True and untouched after reset_container=False, whatever they held before
+  C06_recorded_rows             record_detectors=True: rows not written by a step of the executed window are zero
+                                (reset_container=True) resp. unchanged (False)
   AsFound.C06_reset_ext         the pinned tree reset detector / recording states by `v * 0`: over `Ext K` that zeroes
                                 exactly the finite entries and keeps the non-finite ones — machine-checked refutation
                                 of "reset zeroes all time-dependent state" (witness examples), replayed on the
@@ -214,6 +218,80 @@ theorem C06_rerun_from_output (T : Nat) (body : Nat → Container α → Contain
   rw [C06_rerun_deterministic T .none body out.2 c hsf, hout]
 
 end reset
+
+/-! ### reset_container × record_detectors -/
+
+section recordflag
+variable {α : Type} [OfNat α 0]
+
+omit [OfNat α 0] in
+theorem iterate_det_of_unrecorded (f : Nat → Container α → Container α) (hno : ∀ t x, (f t x).det = x.det)
+    (n : Nat) (s : Nat × Container α) : ((step f)^[n] s).2.det = s.2.det := by
+  induction n generalizing s with
+  | zero => rfl
+  | succ n ih => rw [Function.iterate_succ_apply, ih]; exact hno _ _
+
+/-- **C06 (reset_container with record_detectors = False)**: a call that does not record leaves the detector states
+exactly as the (optional) reset made them — all zero after `reset_container=True`, untouched otherwise —
+whatever the container held before (a recorded run, non-finite rubbish, …) and whatever window is run. -/
+theorem C06_unrecorded_detectors (T : Nat) (body : Bool → Nat → Container α → Container α)
+    (hno : ∀ t x, (body false t x).det = x.det) (start stop : Nat) (c : Container α) :
+    (customForwardRD T true false (fun x => x.reset) body start stop c).2.det = zerosLike c.det
+    ∧ (∀ v ∈ (customForwardRD T true false (fun x => x.reset) body start stop c).2.det, v = 0)
+    ∧ (customForwardRD T false false (fun x => x.reset) body start stop c).2.det = c.det := by
+  have h : ∀ rs, (customForwardRD T rs false (fun x => x.reset) body start stop c).2.det
+      = (if rs then c.reset else c).det := by
+    intro rs
+    unfold customForwardRD customForward
+    rw [whileLoop_eq_iterate, iterate_det_of_unrecorded (body false) hno]
+  refine ⟨by rw [h true]; rfl, ?_, by rw [h false]; rfl⟩
+  intro v hv
+  rw [h true] at hv
+  exact (C06_reset_zero c false).2.1 v hv
+
+omit [OfNat α 0] in
+theorem iterate_row_kept (f : Nat → Container α → Container α) (writes : Nat → Prop) (i : Nat)
+    (hrow : ∀ t x, ¬ writes t → (f t x).det[i]? = x.det[i]?)
+    (n : Nat) (s : Nat × Container α) (hq : ∀ j, j < n → ¬ writes (s.1 + j)) :
+    ((step f)^[n] s).2.det[i]? = s.2.det[i]? := by
+  induction n generalizing s with
+  | zero => rfl
+  | succ n ih =>
+    rw [Function.iterate_succ_apply, ih]
+    · exact hrow _ _ (by simpa using hq 0 (by omega))
+    · intro j hj
+      have := hq (j + 1) (by omega)
+      simpa [step, Nat.add_assoc, Nat.add_comm 1 j] using this
+
+/-- **C06 (recording calls)**: row `i` of a detector state that no step of the executed window `[start, stop)` writes
+is exactly what the (optional) reset made it: zero after `reset_container=True`, the earlier value otherwise. -/
+theorem C06_recorded_rows (T : Nat) (body : Bool → Nat → Container α → Container α) (rd : Bool)
+    (writes : Nat → Prop) (i : Nat)
+    (hrow : ∀ t x, ¬ writes t → (body rd t x).det[i]? = x.det[i]?)
+    (start stop : Nat) (hq : ∀ t, start ≤ t → t < stop → ¬ writes t) (rs : Bool) (c : Container α) :
+    (customForwardRD T rs rd (fun x => x.reset) body start stop c).2.det[i]?
+      = (if rs then c.reset else c).det[i]? := by
+  unfold customForwardRD customForward
+  rw [whileLoop_eq_iterate]
+  apply iterate_row_kept (body rd) writes i hrow
+  intro j hj
+  have := iterCount_cond_true _ _ _ _ j hj
+  rw [step_iterate_fst] at this
+  simp only [decide_eq_true_eq] at this
+  exact hq _ (by simp) (by simpa using this)
+
+end recordflag
+
+/-- the provenance model of the driver satisfies the hypotheses of both theorems -/
+theorem recordBody_unrecorded (rows : List (List Nat)) (t : Nat) (x : Container Tag) :
+    (recordBody rows false t x).det = x.det := rfl
+
+example : (customForwardRD 10 true false (fun x => x.reset) (recordBody [[0], [3], [0, 3, 6], []]) 2 5
+    ⟨[.kept 0], [.kept 0, .kept 1, .kept 2, .kept 3], none, []⟩).2.det = [.zero, .zero, .zero, .zero] := by decide
+example : (customForwardRD 10 true true (fun x => x.reset) (recordBody [[0], [3], [0, 3, 6], []]) 2 5
+    ⟨[.kept 0], [.kept 0, .kept 1, .kept 2, .kept 3], none, []⟩).2.det = [.zero, .recorded, .recorded, .zero] := by decide
+example : (customForwardRD 10 false true (fun x => x.reset) (recordBody [[0], [3], [0, 3, 6], []]) 2 5
+    ⟨[.kept 0], [.kept 0, .kept 1, .kept 2, .kept 3], none, []⟩).2.det = [.kept 0, .recorded, .recorded, .kept 3] := by decide
 
 /-! ### scalars with a non-finite element -/
 
